@@ -69,6 +69,13 @@ def oracle_c03(cid, impl, m):
         return None
     for key in ("res", "cres"):
         if key in impl:
+            if key == "cres" and (m.get("lim0") != "0" or m.get("lim") != "0"):
+                # the concurrent runs use a depth that cannot bind; comparable with the model's
+                # fault-free answer only when that answer does not depend on the depth
+                memb, _, err = impl[key].partition("/")
+                if err != "none" and memb == "isMember":
+                    return ("c03-allowed-with-error", f"concurrent checkgroup: answer {impl[key]} carries an error and says allowed")
+                continue
             v = _c03_one(impl[key], m)
             if v is not True:
                 return (v[0], ("concurrent checkgroup: " if key == "cres" else "") + v[1])
